@@ -267,7 +267,11 @@ class CallModelsMixin:
                     return e.with_(pts={("N", self.site(node, f"cpel{d}"))} if e.pts else EMPTY, elem=fresh_elems(e.elem, d + 1) if d < 2 else None, items=None)
 
                 el = x.iter_join()
-                v = Val(ty=other or {"?"}, pts={("N", self.site(node, "copy"))}, dep=x.dep, mdep=x.mdep, kind=x.kind, fsrc=x.fsrc, elem=fresh_elems(el) if (deep or True) else el)
+                # a shallow copy of a builtin container is a new container holding the SAME element objects (and copy() of a tuple is
+                # the tuple itself); only deepcopy, or copy() of something that is not a builtin container (a user point, an ndarray),
+                # gives independent contents
+                shares = (not deep) and bool(other - {"None"}) and other <= {"tuple", "list", "set", "dict", "None"}
+                v = Val(ty=other or {"?"}, pts={("N", self.site(node, "copy"))}, dep=x.dep, mdep=x.mdep, kind=x.kind, fsrc=x.fsrc, elem=el if shares else fresh_elems(el))
                 # assumption: copy() of a user point object yields an independent object
                 res = join(res, v)
         return res
